@@ -27,9 +27,9 @@ func ResetClosed() { closed = nil }
 func pre(label string, p unsafe.Pointer) {
 	vsched.Yield(label, uintptr(p))
 	a := uintptr(p)
-	for _, r := range closed {
+	for i, r := range closed {
 		if a >= r.lo && a < r.hi {
-			vsched.Event(fmt.Sprintf("USE-AFTER-UNMAP %s", label))
+			vsched.Event(fmt.Sprintf("USE-AFTER-UNMAP %s region=%d", label, i))
 		}
 	}
 }
